@@ -18,6 +18,18 @@ PLAN = {
     "masyu": {"quick": [(2, 2, 0), (2, 3, 120), (3, 2, 60), (3, 3, 80)], "thorough": [(2, 2, 0), (2, 3, 0), (3, 2, 0), (3, 3, 4000), (3, 4, 800)]},
     "yajilin": {"quick": [(2, 2, 120), (2, 3, 100), (3, 2, 60), (3, 3, 60)], "thorough": [(2, 2, 0), (2, 3, 6000), (3, 2, 3000), (3, 3, 2000)]},
     "simpleloop": {"quick": [(2, 2, 0), (2, 3, 120), (3, 3, 100)], "thorough": [(2, 2, 0), (2, 3, 0), (3, 2, 0), (3, 3, 0), (3, 4, 2000)]},
+    "nurikabe": {"quick": [(1, 1, 0), (1, 3, 0), (3, 1, 0), (2, 3, 100), (3, 3, 80)], "thorough": [(1, 1, 0), (1, 3, 0), (3, 1, 0), (2, 2, 0), (2, 3, 6000), (3, 2, 3000), (3, 3, 3000)]},
+    "norinori": {"quick": [(1, 3, 0), (2, 2, 0), (2, 3, 0), (3, 3, 120)], "thorough": [(1, 3, 0), (3, 1, 0), (2, 2, 0), (2, 3, 0), (3, 2, 0), (3, 3, 0), (2, 4, 0)]},
+    "akari": {"quick": [(1, 3, 0), (3, 1, 0), (2, 3, 120), (3, 3, 80)], "thorough": [(1, 1, 0), (1, 3, 0), (3, 1, 0), (2, 2, 0), (2, 3, 6000), (3, 2, 3000), (3, 3, 3000)]},
+    "starbattle": {"quick": [(1, 1, 0), (2, 2, 0), (3, 3, 0)], "thorough": [(1, 1, 0), (2, 2, 0), (3, 3, 0), (4, 4, 600)]},
+    "yinyang": {"quick": [(1, 3, 0), (3, 1, 0), (2, 3, 120), (3, 3, 80)], "thorough": [(1, 1, 0), (1, 3, 0), (3, 1, 0), (2, 2, 0), (2, 3, 0), (3, 2, 0), (3, 3, 4000), (3, 4, 1000)]},
+    "creek": {"quick": [(1, 1, 0), (1, 2, 120), (2, 2, 100), (2, 3, 60)], "thorough": [(1, 1, 0), (1, 2, 6000), (2, 1, 3000), (2, 2, 4000), (2, 3, 2000), (3, 3, 1000)]},
+    "heyawake": {"quick": [(1, 3, 0), (3, 1, 0), (2, 3, 0), (3, 3, 150)], "thorough": [(1, 3, 0), (3, 1, 0), (2, 2, 0), (2, 3, 0), (3, 2, 0), (3, 3, 0), (1, 5, 0)]},
+    "lits": {"quick": [(2, 3, 0), (3, 3, 0), (2, 4, 150)], "thorough": [(2, 3, 0), (3, 2, 0), (3, 3, 0), (2, 4, 0), (3, 4, 800)]},
+    "nurimisaki": {"quick": [(1, 3, 0), (3, 1, 0), (2, 3, 120), (3, 3, 80)], "thorough": [(1, 3, 0), (3, 1, 0), (2, 2, 0), (2, 3, 0), (3, 2, 0), (3, 3, 4000), (3, 4, 1000)]},
+    "putteria": {"quick": [(1, 3, 0), (2, 2, 0), (2, 3, 0), (3, 3, 150)], "thorough": [(1, 3, 0), (3, 1, 0), (2, 2, 0), (2, 3, 0), (3, 2, 0), (3, 3, 0)]},
+    "aquarium": {"quick": [(1, 3, 0), (3, 1, 0), (2, 3, 200), (3, 2, 100), (3, 3, 100)], "thorough": [(1, 3, 0), (3, 1, 0), (2, 2, 0), (2, 3, 0), (3, 2, 0), (3, 3, 3000)]},
+    "gokigen": {"quick": [(1, 1, 0), (1, 2, 150), (2, 2, 100), (2, 3, 60)], "thorough": [(1, 1, 0), (1, 2, 6000), (2, 1, 3000), (2, 2, 4000), (2, 3, 2000), (3, 3, 600)]},
 }
 
 
@@ -25,10 +37,17 @@ def run(tier, seed):
     chk = Check(PID, tier, seed)
     cases = []
     covered = {}
-    for pz, plan in PLAN.items():
-        for (h, w, cnt) in plan[tier]:
-            res = run_tlc("MC_Puzzle", "MC_Puzzle", workdir=chk.dir, timeout=3000,
-                          env={"PUZZLE": pz, "BH": h, "BW": w, "COUNT": cnt, "SEED": seed % 1000})
+    # one single-worker TLC process per (puzzle, board), many at a time: these enumerator runs are dominated by the
+    # evaluation of large constant sets, which TLC does fastest with one worker (measured: 12 s vs 92 s with 16)
+    from concurrent.futures import ThreadPoolExecutor
+    todo = [(pz, h, w, cnt) for pz, plan in PLAN.items() for (h, w, cnt) in plan[tier]]
+
+    def one(job):
+        pz, h, w, cnt = job
+        return job, run_tlc("MC_Puzzle", "MC_Puzzle", workdir=chk.dir, timeout=6000, workers=1, heap="3g",
+                            env={"PUZZLE": pz, "BH": h, "BW": w, "COUNT": cnt, "SEED": seed % 1000})
+    with ThreadPoolExecutor(max_workers=12) as ex:
+        for (pz, h, w, cnt), res in ex.map(one, todo):
             chk.add_tlc(res)
             cases += res.records
             covered.setdefault(pz, []).append(f"{h}x{w}:{len(res.records)}")
